@@ -263,8 +263,12 @@ def rule_columns(prog, rep):
         a, h = tables["ATOM"].get(attr), tables["HETATM"].get(attr)
         if a and h:
             r.add(f"sibling|{attr}", a[0] == h[0], f"ATOM reads {a[0]}, HETATM reads {h[0]}", "pdb2pqr/pdb.py")
+    # the record classes on a model line with a distinct value in every column field (any code shape)
+    record_classes_on_model(prog, r)
     # read_atom: the rebuilt line
     fn = prog.func("pdb.py", "read_atom").node
+    if read_atom_on_model(prog, r, fn):
+        return
     pieces = []
     var = None
     for st in fn.body:
@@ -541,6 +545,106 @@ def rule_models(prog, rep):
 
 
 # ------------------------------------------------------------------------------------- R9
+def pdb_line(rec, serial, name, alt, res, chain, seq, icode, x, y, z, occ=1.0, b=20.0, seg="", el="", ch=""):
+    """A coordinate record in the wwPDB column layout (format description v3.3, ATOM/HETATM)."""
+    return (f"{rec:<6}{serial:>5} {name:<4}{alt or ' ':1}{res:>3} {chain or ' ':1}{seq:>4}{icode or ' ':1}   {x:8.3f}{y:8.3f}{z:8.3f}{occ:6.2f}{b:6.2f}"
+            f"      {seg:<4}{el:>2}{ch:<2}")
+
+
+def record_classes_on_model(prog, r):
+    from ..guards import Flow
+    from ..objinterp import ObjRunner
+    run = ObjRunner(prog, "pdb.py")
+    want = dict(serial=12345, name="1HB2", alt_loc="A", res_name="HOH", chain_id="B", res_seq=-234, ins_code="C", x=-123.456, y=234.567, z=-0.001,
+                occupancy=0.5, temp_factor=99.99, seg_id="SEG1", element="O", charge="1-")
+    for cls_ in ("ATOM", "HETATM"):
+        line = pdb_line(cls_, want["serial"], want["name"], want["alt_loc"], want["res_name"], want["chain_id"], want["res_seq"], want["ins_code"],
+                        want["x"], want["y"], want["z"], want["occupancy"], want["temp_factor"], want["seg_id"], want["element"], want["charge"]) + "\n"
+        where = f"pdb2pqr/pdb.py ({cls_}.__init__)"
+        try:
+            obj = run.new(cls_, line)
+        except Flow as fl:
+            r.bad(f"model-line|{cls_}", f"{cls_}(line) stops with {fl.value} on a full-width wwPDB record", where)
+            continue
+        except AnalysisError:
+            return
+        bad = {k: (obj.get(k), v) for k, v in want.items() if obj.get(k) != v}
+        r.add(f"model-line|{cls_}", not bad, "a record with a distinct value in every column field (five-digit serial, four-character name, alternate "
+              "location, insertion code, negative number, full-width coordinates) is read field by field as written" if not bad else
+              f"fields differ (read, written): {bad}", where)
+
+
+def read_atom_on_model(prog, r, fn):
+    """read_atom (the fallback for records whose columns are out of place) is evaluated on model lines whose fields are
+    separated by blanks but shifted; what it hands to the record class must parse to the tokens.  False if not possible."""
+    from ..guards import Flow
+    from ..objinterp import ObjRunner
+    where = f"pdb2pqr/pdb.py:{fn.lineno} (read_atom)"
+    lines = [
+        ("ATOM      1  N   MET A   1       26.800   41.153    3.834   1.00  20.00\n", dict(res_seq=1, x=26.8, y=41.153, z=3.834, occupancy=1.0, temp_factor=20.0)),
+        ("HETATM  901 O    HOH B 1234 -100.123  -5.500  12.000  0.50 99.99           O\n", dict(res_seq=1234, x=-100.123, y=-5.5, z=12.0, occupancy=0.5, temp_factor=99.99)),
+        ("ATOM     17  CA  GLY A  -6        1.500        0.000      -12.250  1.00  0.00\n", dict(res_seq=-6, x=1.5, y=0.0, z=-12.25, occupancy=1.0, temp_factor=0.0)),
+    ]
+    try:
+        for line, want in lines:
+            run = ObjRunner(prog, "pdb.py")
+            env_parsers = {"ATOM": run.class_ref("ATOM"), "HETATM": run.class_ref("HETATM")}
+            run.module_state["pdb.py"] = {**run.module_env("pdb.py"), "LINE_PARSERS": env_parsers}
+            try:
+                obj = run.call_function("pdb.py", "read_atom", line)
+            except Flow as fl:
+                r.bad(f"rebuild|{line[:6].strip()}:{want['res_seq']}", f"read_atom stops with {fl.value} on {line.strip()!r}", where)
+                continue
+            if not isinstance(obj, dict):
+                raise AnalysisError("read_atom did not return a record object on the model")
+            bad = {k: (obj.get(k), v) for k, v in want.items() if obj.get(k) != v}
+            head_ok = obj.get("name") == line[12:16].strip() and obj.get("res_name") == line[17:20].strip() and obj.get("chain_id") == line[21].strip()
+            r.add(f"rebuild|{line[:6].strip()}:{want['res_seq']}", not bad and head_ok,
+                  "the record rebuilt from the blank-separated tokens parses to residue number, x, y, z, occupancy and B factor as written" if not bad and head_ok
+                  else f"fields differ (read, written): {bad}; name/residue/chain {'kept' if head_ok else 'NOT kept'}", where)
+    except AnalysisError:
+        return False
+    return True
+
+
+def water_filter_on_model(prog, r, where):
+    """drop_water is evaluated on model records built by the record classes themselves from wwPDB-formatted lines.  Returns
+    False if the evaluation is not possible (the shape-based rule then decides)."""
+    from ..guards import Flow
+    from ..objinterp import ObjRunner
+    run = ObjRunner(prog, "pdb.py")
+    spec = [("ATOM", 1, "N", "", "ALA", "A", 1, "", True), ("HETATM", 2, "O", "", "HOH", "A", 201, "", False), ("ATOM", 3, "O", "", "WAT", "A", 202, "", False),
+            ("HETATM", 10000, "O", "", "HOH", "A", 203, "", False), ("HETATM", 99999, "H1", "A", "HOH", "B", 1204, "B", False),
+            ("HETATM", 5, "C1", "", "LIG", "A", 301, "", True), ("ATOM", 6, "OW", "", "SOL", "A", 302, "", True), ("HETATM", 7, "ZN", "", "ZN", "A", 303, "", True),
+            ("ATOM", 8, "HOH", "", "GLY", "A", 2, "", True), ("HETATM", 2, "C2", "", "LIG", "B", 401, "", True)]  # the last one shares its serial with a water
+    try:
+        records, keep = [], []
+        for rec, serial, name, alt, res, chain, seq, ic, kept in spec:
+            obj = run.new(rec, pdb_line(rec, serial, name, alt, res, chain, seq, ic, 1.0, 2.0, 3.0) + "\n")
+            obj["__id__"] = f"{rec}{serial}:{res}"
+            records.append(obj)
+            if kept:
+                keep.append(obj["__id__"])
+        for cls_, text in (("TER", "TER\n"), ("END", "END\n")):
+            obj = run.new(cls_, text)
+            obj["__id__"] = cls_
+            records.append(obj)
+            keep.append(cls_)
+        run.rel = "main.py"
+        out = run.call_function("main.py", "drop_water", list(records))
+    except Flow as fl:
+        r.bad("filter", f"drop_water (or a record constructor) stops with {fl.value} on the model records", where)
+        return True
+    except AnalysisError:
+        return False
+    got = [x.get("__id__") for x in out] if isinstance(out, list) else out
+    r.add("filter", got == keep, "model records: exactly the ATOM/HETATM records of residues named HOH/WAT are removed (also with five-digit serials, "
+          "alternate location and insertion code); every other record is kept, in order" if got == keep else
+          f"model records: kept {got}, expected {keep}", where)
+    r.ok("record-type-by-columns", "decided on the model: the water HETATM10000 (record name and serial not blank-separated) is recognised", where)
+    return True
+
+
 def rule_water(prog, rep):
     r = rep.rule("R9", "waters are removed if and only if --drop-water is given", floor=4)
     md = prog.func("main.py", "main_driver").node
@@ -560,8 +664,10 @@ def rule_water(prog, rep):
                 readers.append(key)
     r.add("flag-readers", set(readers) <= {"main.py::main_driver"}, f"args.drop_water is read in {sorted(set(readers))}", where)
     dw = prog.func("main.py", "drop_water").node
-    skips = [s for s in iter_stmts(dw.body) if isinstance(s, ast.Continue)]
     w2 = f"pdb2pqr/main.py:{dw.lineno} (drop_water)"
+    if water_filter_on_model(prog, r, w2):
+        return
+    skips = [s for s in iter_stmts(dw.body) if isinstance(s, ast.Continue)]
     if len(skips) != 1:
         r.bad("filter", f"drop_water has {len(skips)} skip statements; expected one", w2)
         return
